@@ -2,12 +2,20 @@ package harness
 
 import (
 	"fmt"
+	"testing"
 
+	"verifsim/core"
 	"verifsim/model"
 )
 
 func init() {
 	Generators["C18"] = GenC18
+	Runners["C18"] = func(t *testing.T, plan *Plan, st *core.Stream, extra Extra, keepLog bool) *Result {
+		if plan.FreeSteps > 0 {
+			return RunFree(t, plan, st, extra, keepLog)
+		}
+		return Run(t, plan, st, extra, keepLog)
+	}
 }
 
 var c18ReceiptFields = []string{"tx_status", "tx_gas_used"}
@@ -89,5 +97,20 @@ func GenC18(seed uint64) *Plan {
 	}
 	p.Checks["race_only"] = true
 	p.MaxSteps = 2500
+	if g.chance(40) {
+		// free-running run: frozen chain, no faults, real mutexes, the Go
+		// scheduler decides; tasks at different heights and high concurrency
+		// so that more than five segments are cached at once
+		p.Burst = false
+		p.FreeSteps = g.between(20, 60)
+		p.Faults = FaultPlan{}
+		sp.InitLen = g.between(30, 70)
+		sp.PollMs = g.pickInt([]int{100, 250})
+		for i, d := range p.Decls {
+			if i > 0 && g.chance(50) {
+				d.Sources[0].Start = uint64(g.between(1, sp.InitLen/2))
+			}
+		}
+	}
 	return p
 }
